@@ -6,7 +6,6 @@ VERIF=$(cd "$(dirname "$0")/.." && pwd)
 rm -rf "$d"; mkdir -p "$d/out"
 git -C /repo worktree prune
 git -C /repo worktree add --detach "$d/repo" HEAD >/dev/null 2>&1
-cp /tmp/seed-C14e/PROPERTY.txt /dev/null 2>&1 || true
 python3 - "$id" "$VERIF/properties.jsonl" > "$d/PROPERTY.txt" <<'PY'
 import json,sys
 for l in open(sys.argv[2]):
